@@ -469,6 +469,10 @@ class _DeviceIdFilterMixin(_BaseProtocol):
 
         return True
 
+    def connection_lost(self, err: ExceptionT | None) -> None:  # type: ignore[override]
+        super().connection_lost(err)
+        self._active_hgi = None  # the next connection (if any) will set it again
+
     def pkt_received(self, pkt: Packet) -> None:
         if not self._is_wanted_addrs(pkt.src.id, pkt.dst.id):
             _LOGGER.debug("%s < Packet excluded by device_id filter", pkt)
